@@ -15,8 +15,12 @@ from ..report import Report
 from ..util import callee_last
 
 IDX = 'fggs.indices'
-FLOAT_IN = [c for c in NUM_CLASSES if c != 'NAN']
 BOOL_IN = ['F', 'T']
+
+
+def float_in() -> List[str]:
+    from . import domain as _D
+    return [c for c in _D.NUM_CLASSES if c != 'NAN']
 
 # method name -> (reference primitive, arity kind)
 REF = {
@@ -101,13 +105,14 @@ def check_wrappers(prog: Program, rep: Report, rule: str, only_semiring_used: bo
         others = [p for p in pos[1:]]
         for p in others:
             isinst[p] = False           # scalar branch
-        ins = BOOL_IN if kind == 'bool-unary' else FLOAT_IN
+        ins = BOOL_IN if kind == 'bool-unary' else float_in()
         configs: List[Dict[str, AV]] = [{}]
         if kind == 'nan_to_num':
             configs = nan_to_num_configs(prog)
-            ins = NUM_CLASSES
+            from . import domain as _D
+            ins = list(_D.NUM_CLASSES)
         elif kind == 'scalar':
-            configs = [{others[0]: AV([c], 'scalar')} for c in FLOAT_IN] if others else [{}]
+            configs = [{others[0]: AV([c], 'scalar')} for c in float_in()] if others else [{}]
         elif kind == 'unary-opaque':
             configs = [{others[0]: Opaque('dtype')}] if others else [{}]
         bad: List[str] = []
@@ -172,7 +177,7 @@ def check_binary(prog: Program, rep: Report, rule: str) -> None:
             if prim is None:
                 rep.error(f"{rule}: {m.loc(call)} cannot identify the in-place operation `{norm(lam)[:60]}`")
                 continue
-            ins = BOOL_IN if prim.startswith('logical') else FLOAT_IN
+            ins = BOOL_IN if prim.startswith('logical') else float_in()
             # (1) the operation is the one the method is named after
             want = {'__add__': 'add', '__mul__': 'mul'}.get(m.name, m.name)
             rep.ob(rule, m.fq(), f"{m.name}: in-place operation of the pattern-aware path is torch.{want}", m.loc(call), prim == want,
@@ -216,14 +221,14 @@ def check_binary(prog: Program, rep: Report, rule: str) -> None:
                   and isinstance(x.comparators[0], ast.Constant) and norm(x.left) in (f"{selfn}.default", f"{other}.default")]:
             k = c.comparators[0].value
             kv = const(float(k), 'tensor')
-            okk = all(apply(prim, AV([cl], 'tensor'), kv, mode='tensor').cls == {cl} for cl in FLOAT_IN)
+            okk = all(apply(prim, AV([cl], 'tensor'), kv, mode='tensor').cls == {cl} for cl in float_in())
             rep.ob(rule, m.fq(), f"{name}: shortcut test `{norm(c)}` compares with the right identity of torch.{prim}", m.loc(c), okk and k == rid,
                    f"x {prim} {k} == x on every class: {okk}")
         asg = [a for a in own_nodes(m.node) if isinstance(a, ast.Assign) and len(a.targets) == 1 and norm(a.targets[0]) == 'default']
         for a in asg:
             badd = []
             try:
-                for c1, c2 in itertools.product(FLOAT_IN, repeat=2):
+                for c1, c2 in itertools.product(float_in(), repeat=2):
                     env = {selfn: SelfObj(AV([c1], 'tensor'), AV([c1], 'scalar')), other: SelfObj(AV([c2], 'tensor'), AV([c2], 'scalar'))}
                     got = as_av(Interp(prog, m).eval(a.value, env), a.value)
                     ref = apply(prim, AV([c1], 'tensor'), AV([c2], 'tensor'), mode='tensor')
@@ -234,4 +239,4 @@ def check_binary(prog: Program, rep: Report, rule: str) -> None:
             except Unsupported as u:
                 rep.error(f"{rule}: {m.loc(a)} {u}"); continue
             rep.ob(rule, m.fq(), f"{name}: result default `{norm(a.value)[:60]}` == torch.{prim}(self.default, other.default)", m.loc(a), not badd,
-                   '; '.join(badd[:3]) if badd else f"{len(FLOAT_IN) ** 2} class pairs agree")
+                   '; '.join(badd[:3]) if badd else f"{len(float_in()) ** 2} class pairs agree")
